@@ -1005,15 +1005,12 @@ func (c *compiler) evalCallExpression(node *ast.CallExpression) (interface{}, er
 			return nil, fmt.Errorf("could not call %s function: %w", node.Function, e)
 		}
 		if node.ChainCallee != nil {
-			octx := c.ctx.(*Context)
+			octx := c.ctx
 			defer func() {
 				c.ctx = octx
 			}()
 
-			c.ctx = octx.New()
-			for k, v := range octx.data {
-				c.ctx.Set(k, v)
-			}
+			c.ctx = c.newScope()
 			// the rest of the path starts at an identifier the parser made
 			// up for the result of this call
 			key, ok := chainRootName(node.ChainCallee)
@@ -1034,16 +1031,12 @@ func (c *compiler) evalCallExpression(node *ast.CallExpression) (interface{}, er
 }
 
 func (c *compiler) evalForExpression(node *ast.ForExpression) (interface{}, error) {
-	octx := c.ctx.(*Context)
+	octx := c.ctx
 	defer func() {
 		c.ctx = octx
 	}()
 
-	c.ctx = octx.New()
-	// must copy all data from original (it includes application defined helpers)
-	for k, v := range octx.data {
-		c.ctx.Set(k, v)
-	}
+	c.ctx = c.newScope()
 
 	iter, err := c.evalExpression(node.Iterable)
 	if err != nil {
@@ -1278,16 +1271,12 @@ func (c *compiler) evalArrayLiteral(node *ast.ArrayLiteral) (interface{}, error)
 }
 
 func (c *compiler) evalIndexCallee(rv reflect.Value, node *ast.IndexExpression) (interface{}, error) {
-	octx := c.ctx.(*Context)
+	octx := c.ctx
 	defer func() {
 		c.ctx = octx
 	}()
 
-	c.ctx = octx.New()
-	// must copy all data from original (it includes application defined helpers)
-	for k, v := range octx.data {
-		c.ctx.Set(k, v)
-	}
+	c.ctx = c.newScope()
 
 	// The rest of the path (node.Callee) starts at an identifier the parser
 	// made up for the indexed value: person.Names[0].First is evaluated as
@@ -1305,6 +1294,26 @@ func (c *compiler) evalIndexCallee(rv reflect.Value, node *ast.IndexExpression) 
 	}
 
 	return vvs, nil
+}
+
+// newScope makes a child of the current context for a loop body or for the
+// rest of a path. The context may be any hctx.Context; a *Context child also
+// gets a copy of its parent's own data (it includes application defined
+// helpers).
+func (c *compiler) newScope() hctx.Context {
+	nc := c.ctx.New()
+	if octx, ok := c.ctx.(*Context); ok {
+		octx.moot.Lock()
+		data := make(map[string]interface{}, len(octx.data))
+		for k, v := range octx.data {
+			data[k] = v
+		}
+		octx.moot.Unlock()
+		for k, v := range data {
+			nc.Set(k, v)
+		}
+	}
+	return nc
 }
 
 // identifierKey is the name an identifier is looked up under. A name the
